@@ -53,7 +53,7 @@ func runC05(c *core.Ctx) {
 	info := ip.TypesInfo
 	var exec *ast.FuncDecl
 	core.AllFuncDecls(ip, func(fd *ast.FuncDecl) {
-		if fd.Name.Name == "callNativeFunc" {
+		if fd.Name.Name == interpExecLoopName(ip) {
 			exec = fd
 		}
 	})
